@@ -54,7 +54,7 @@ func (t *Term) String() string {
 	case "typeassert":
 		return t.Args[0].String() + ".(" + t.Name + ")"
 	case "complit":
-		return "complit:" + t.Name + "{" + joinTerms(t.Args) + "}"
+		return "complit:" + t.Name + "{" + joinFields(t.Args, true) + "}"
 	case "clobber":
 		if len(t.Args) == 1 {
 			return "out:" + t.Name + "←" + t.Args[0].String()
@@ -65,9 +65,51 @@ func (t *Term) String() string {
 	case "fieldset":
 		return t.Name + "=" + t.Args[0].String()
 	case "upd":
+		// a value built field by field from the zero value (or from a literal) is the literal with those fields
+		base, sets := t, []*Term(nil)
+		for base.Op == "upd" && len(base.Args) == 2 && base.Args[1].Op == "fieldset" {
+			sets = append([]*Term{base.Args[1]}, sets...)
+			base = base.Args[0]
+		}
+		if base.Op == "complit" {
+			return "complit:" + base.Name + "{" + joinFields(append(append([]*Term{}, base.Args...), sets...), true) + "}"
+		}
+		if base.Op == "zero" && base.V != nil {
+			if _, isStruct := deref(base.V.Type()).Underlying().(*types.Struct); isStruct {
+				return "complit:" + typeStr(deref(base.V.Type())) + "{" + joinFields(sets, true) + "}"
+			}
+		}
 		return "upd(" + joinTerms(t.Args) + ")"
 	}
 	return t.Op + ":" + t.Name + "(" + joinTerms(t.Args) + ")"
+}
+
+// joinFields renders the fields of a struct literal: the last assignment to a field wins, fields are sorted by name,
+// and (for a value built from scratch) fields explicitly given their zero value are left out.
+func joinFields(ts []*Term, fromScratch bool) string {
+	for _, t := range ts {
+		if t.Op != "fieldset" || len(t.Args) != 1 {
+			return joinTerms(ts)
+		}
+	}
+	last := map[string]string{}
+	var names []string
+	for _, t := range ts {
+		if _, ok := last[t.Name]; !ok {
+			names = append(names, t.Name)
+		}
+		last[t.Name] = t.Args[0].String()
+	}
+	sort.Strings(names)
+	var ss []string
+	for _, n := range names {
+		v := last[n]
+		if fromScratch && (v == "false" || v == "0" || v == `""` || v == "nil") {
+			continue
+		}
+		ss = append(ss, n+"="+v)
+	}
+	return strings.Join(ss, ", ")
 }
 
 func joinTerms(ts []*Term) string {
